@@ -209,4 +209,27 @@ def run(repo, rep):
     ca = calls_in(ge, "scaling.advanced_elementwise_add_sub_scale")
     rep.check(len(ca) == 1 and [norm(a) for a in ca[0].args] == ["input_scale", "input2_scale", "output_scale", "bitdepth"], "C09-c", f"{GEN}:generate_scaling_for_elementwise",
               "advanced(input_scale, input2_scale, output_scale, bitdepth)", "")
-    rep.floor("C09-c", 10)
+    # the derived values reach the registers / variables of the same role
+    role = {"in_scale": "opa_scale", "in_shift": "opa_shift", "out_scale": "ofm_scale", "out_shift": "shift", "op_to_scale": "op_to_scale",
+            "input1_rescale": "opa_scale", "input2_rescale": "opb_scale"}
+    for callee, fdef in (("advanced_elementwise_add_sub_scale", adv), ("simplified_elementwise_add_sub_scale", simp)):
+        ret = fdef.body[-1].value
+        names = [norm(e) for e in ret.elts] if isinstance(ret, ast.Tuple) else []
+        for s_ in ast.walk(ge):
+            if isinstance(s_, ast.Assign) and isinstance(s_.value, ast.Call) and (call_name(s_.value) or "").endswith(callee) and isinstance(s_.targets[0], ast.Tuple):
+                tg = [norm(e) for e in s_.targets[0].elts]
+                want = [role.get(n_, n_) for n_ in names]
+                rep.check(tg == want, "C09-c", f"{GEN}:generate_scaling_for_elementwise", f"result of {callee} is unpacked as {want}", f"unpacked as {tg} from a callee returning {names}")
+    want_emit = {"NPU_SET_OPA_SCALE": ["opa_scale", "opa_shift"], "NPU_SET_OPB_SCALE": ["opb_scale"], "NPU_SET_OFM_SCALE": ["ofm_scale", "shift"]}
+    for c_ in ast.walk(ge):
+        if isinstance(c_, ast.Call) and norm(c_.func) == "emit.cmd1_with_offset":
+            reg = norm(c_.args[0]).split(".")[-1]
+            got = [norm(a) for a in c_.args[1:]]
+            rep.check(got == want_emit.get(reg), "C09-c", f"{GEN}:generate_scaling_for_elementwise", f"{reg} <- {want_emit.get(reg)}", f"emitted with {got}")
+    gp = gen.func("generate_ofm_scaling_for_pooling")
+    em = [c_ for c_ in ast.walk(gp) if isinstance(c_, ast.Call) and norm(c_.func) == "emit.cmd1_with_offset"]
+    rep.check(len(em) == 1 and [norm(a) for a in em[0].args] == ["cmd1.NPU_SET_OFM_SCALE", "scale", "shift"], "C09-c", f"{GEN}:generate_ofm_scaling_for_pooling", "NPU_SET_OFM_SCALE <- (scale, shift)", "")
+    for s_ in ast.walk(gp):
+        if isinstance(s_, ast.Assign) and isinstance(s_.value, ast.Call) and (call_name(s_.value) or "").startswith("scaling.quantise"):
+            rep.check(norm(s_.targets[0]) == "(scale, shift)", "C09-c", f"{GEN}:generate_ofm_scaling_for_pooling", f"{call_name(s_.value)} unpacked as (scale, shift)", norm(s_.targets[0]))
+    rep.floor("C09-c", 18)
